@@ -437,7 +437,15 @@ def make_boundary_alignment(refseq, variants, alleles, start, end, pin_start, pi
         return None
     covered = list(covered)
     for i, v in enumerate(variants):
-        if is_snv(v) and (v["pos"] == start or v["pos"] == end - 1) and i not in covered:
+        if i in covered:
+            continue
+        if is_snv(v) and (v["pos"] == start or v["pos"] == end - 1):
+            covered.append(i)
+        elif pin_start and v["pos"] == start:
+            # the read begins on the anchor base of an indel / the first base of a longer variant: covered when the whole REF
+            # span and a flank behind it are aligned
+            if v["pos"] + len(v["ref"]) + 3 > end:
+                return None
             covered.append(i)
     covered.sort()
     return st, [list(c) for c in cigar], seq, [[i, alleles[i]] for i in covered]
@@ -470,9 +478,12 @@ def add_boundary_reads(case):
             cand = [i for i in phased if is_snv(vs[i])]
             if not cand:
                 continue
+            # a read may also BEGIN on the anchor base of a phased indel (it then covers the whole REF span); with --no-reference the
+            # variants are re-normalised (anchor stripped), so there only SNVs are pinned
+            cand_start = phased if not o.get("no_reference") else cand
             for _ in range(rng.randrange(2, 6)):
-                b = rng.choice(cand)
                 side = rng.choice(["start", "start", "start", "end", "end", "both"])
+                b = rng.choice(cand_start if side != "end" else cand)
                 kind = rng.choice(["only", "only", "tie", "majority", "majority", "support"])
                 n_other = {"only": 0, "tie": 1, "majority": 2, "support": rng.randrange(1, 4)}[kind]
                 h = rng.randrange(ploidy)
@@ -559,7 +570,7 @@ def add_boundary_reads(case):
                     partner["flag"] = strand
                     rec["flag"] = strand | FLAG_SUPP
                     rec["tags"] = [["SA", f"{chrom},{partner['start'] + 1},+,50M,60,0;"]]
-                rec["bnd"] = {"side": side, "kind": kind, "clip": clip or "-", "role": role,
+                rec["bnd"] = {"side": side, "kind": kind, "clip": clip or "-", "role": role, "snv": all(is_snv(vs[i]) for i in ([b] if side != "end" else [])),
                               "pos": [vs[i]["pos"] for i, _ in truth if vs[i]["pos"] in (st, ref_end(st, rec["cigar"]) - 1)]}
                 case["alns"].append(rec)
                 if partner is not None:
